@@ -76,11 +76,10 @@ Theorem C05_blinded_submit_from_relay_given_signed_block :
 Proof. exact blinded_submit_from_relay. Qed.
 Print Assumptions C05_blinded_submit_from_relay_given_signed_block.
 
-(* 4b. Every request to a relay, answered or not, made up to the moment of the submission (or at
-   any time when nothing is submitted) carries precisely the signed blinded block of the duty's
-   slot; a relay that retries after another relay's block has been taken sends the version and no
-   block at all (unblindProposal clears the blinded container of the structure the retrying
-   goroutine reads; go-builder-client refuses such a request without contacting the relay).  Every
+(* 4b. Every request to a relay, answered or not, whenever it is made -- also a retry made after
+   another relay's block has been taken -- carries precisely the signed blinded block of the duty's
+   slot (the requests are built before the relay goroutines start; before that repair a retry made
+   after the first delivery carried the version and no block).  Every
    request goes to a relay that can unblind and that returned the winning bid (or any relay of the
    auction when configured so or when nobody won), at most three times per relay. *)
 Theorem C05_relays_sent_signed_blinded_block :
@@ -91,9 +90,7 @@ Theorem C05_relays_sent_signed_blinded_block :
       d_account d = Some acct /\ e_proposal e = POk pr /\ p_blinded pr = true
       /\ p_block pr = Some h /\ h_slot h = d_slot d /\ e_sig_block e = Some sig
       /\ signed_container (p_version pr) true = Some code
-      /\ (rq = unblind_request (signed_proposal pr h sig code)
-          \/ (rq = late_request (signed_proposal pr h sig code)
-              /\ exists t sp', o_submit (propose c e d) = Some (t, sp') /\ t < st))
+      /\ rq = unblind_request (signed_proposal pr h sig code)
       /\ In (sign_block_event c d acct h) (o_events (propose c e d))
       /\ e_auction e = AOk w a /\ In i (candidates c w a)
       /\ nth_error (e_relays e) i = Some rl /\ r_can rl = true
@@ -114,6 +111,23 @@ Theorem C05_first_full_block_wins :
     t <= k_finish cl.
 Proof. exact first_full_block_wins. Qed.
 Print Assumptions C05_first_full_block_wins.
+
+(* 4d. ... and it is not held back by the other relays: EVERY call that is made and that is answered
+   with a full block before the deadline has something submitted no later than the instant it returns
+   -- whatever the other relays are doing then (still inside their call, hanging until the context
+   ends, failing, slow to give up).  With 4 and 4c: the block submitted is the earliest full block any
+   relay hands back, at the instant it is back. *)
+Theorem C05_full_block_in_time_is_submitted :
+  forall c e d pr i rl calls k st rq fc,
+    e_proposal e = POk pr -> full_container (p_version pr) = Some fc ->
+    nth_error (e_relays e) i = Some rl ->
+    nth_error (o_unblind (propose c e d)) i = Some calls ->
+    nth_error calls k = Some (st, rq) ->
+    is_ok (snd (script_nth (r_script rl) k)) = true ->
+    st + fst (script_nth (r_script rl) k) < e_deadline e ->
+    exists t sp, o_submit (propose c e d) = Some (t, sp) /\ t <= st + fst (script_nth (r_script rl) k).
+Proof. exact full_block_in_time_submitted. Qed.
+Print Assumptions C05_full_block_in_time_is_submitted.
 
 (* 5. Nothing is submitted if no relay returns a full block: neither when no relay would ever
    answer with one, nor when none of the calls actually made is answered with one before the
@@ -345,6 +359,26 @@ Theorem C05_P_b_sound_no_relay_no_submit :
 Proof. intros c H Hb Hs. exact (P_core_sound_no_relay_no_submit (actual c) (P_b_core c H) Hb Hs). Qed.
 Print Assumptions C05_P_b_sound_no_relay_no_submit.
 
+(* 13c. P_b on a full block that came back: a call that was SEEN made, whose scripted answer is a full
+   block handed back before the end of the context, has something seen submitted no later than that
+   instant -- also when another relay's call returns without a block at that very instant (a relay
+   that has a block always hands it over).  With [C05_P_b_sound_submit_blinded] (what was submitted had been delivered by
+   then): the earliest full block returned is submitted the moment it is back, not when the other
+   relays have answered or given up. *)
+Theorem C05_P_b_sound_first_block_submitted :
+  forall c p fc i calls k st rq r,
+    P_b c = true ->
+    e_proposal (c_env (actual c)) = POk p -> p_blinded p = true -> full_container (p_version p) = Some fc ->
+    nth_error (o_unblind (c_obs c)) i = Some calls -> nth_error calls k = Some (st, rq) ->
+    nth_error (e_relays (c_env c)) i = Some r -> is_ok (scripted r k) = true ->
+    st + scripted_lat r k < e_deadline (c_env c) - c_t0 c ->
+    exists t sp, o_submit (c_obs c) = Some (t, sp) /\ t <= st + scripted_lat r k.
+Proof.
+  intros c p fc i calls k st rq r H Hp Hbl Hfc Hc Hk Hr Hok Hlt.
+  exact (P_core_sound_first_block (actual c) p fc i calls k st rq r (P_b_core c H) Hp Hbl Hfc Hc Hk Hr Hok Hlt).
+Qed.
+Print Assumptions C05_P_b_sound_first_block_submitted.
+
 Theorem C05_P_b_sound_prepared_duty_own :
   forall c, P_b c = true -> c_prepare c = true -> c_prep_ok c = true ->
     exists a, c_post_account c = Some a /\ provided_account c = Some a
@@ -467,6 +501,18 @@ Example C05_example_all_relays_fail :
               {| r_can := true; r_script := [(100, U400)] |} ] in
   let r := snd (run ex_cfg (ex_env ex_blinded (AOk [] [0%nat; 1%nat]) GNone rs) ex_duty true) in
   map (@length _) (o_unblind r) = [3%nat; 1%nat] /\ o_submit r = None /\ o_ret r = 1650.
+Proof. vm_compute. repeat split; reflexivity. Qed.
+
+(* a blinded capella block, two relays: relay 0 never answers (it hangs until the context ends), relay 1
+   hands back the full block at 300 ms: it is submitted at 300 ms, Propose does not wait for relay 0 *)
+Example C05_example_first_block_not_held_back :
+  let rs := [ {| r_can := true; r_script := [(0, UHang); (0, UHang); (0, UHang)] |};
+              {| r_can := true; r_script := [(300, UEcho 0)] |} ] in
+  let r := snd (run ex_cfg (ex_env ex_blinded (AOk [0%nat; 1%nat] [0%nat; 1%nat]) GNone rs) ex_duty true) in
+  map (@length _) (o_unblind r) = [1%nat; 1%nat]
+  /\ o_submit r = Some (300, {| sp_version := VCapella; sp_blinded := false;
+                                sp_conts := [(CCapella, {| sb_hdr := Some ex_hdr; sb_sig := 66; sb_blobs := 0 |})] |})
+  /\ o_ret r = 300.
 Proof. vm_compute. repeat split; reflexivity. Qed.
 
 (* a block for slot 101 on a duty for slot 100: asked for, then nothing *)
